@@ -29,7 +29,7 @@ ASSUMPTIONS = [
     "the parent points are the grid's public .points (after optional wrapping); wrapping itself is checked separately: "
     "wrapped points differ from the input by a lattice vector and have fractional coordinates in [0,1] within 1e-9",
     "Euclidean distances computed by sum of squares in double precision; pairs within 1e-9*max(1,|p|,|c|,r) of the sphere "
-    "are excluded from the comparison (an untranslated point bit-identical to the centre counts as inside)",
+    "are excluded from the comparison (an untranslated point bit-identical to the centre counts as inside for every radius, also with lattice vectors)",
     "stored position compared with parent + T@realvecs to 1e-10*(1+|position|) (observed error <= 1e-15)",
     "PeriodicGridWarning and other warnings are ignored; an infinite radius is outside the domain (pinned ValueError)",
 ]
